@@ -87,7 +87,7 @@ def transformations(spec, recipe, idx):
         out.append((f"scale {s}", map_spec(spec, ft=lambda x: x * s), recipe, 1.0))
     cat = recipe.get("cat")
     if recipe["k"] == "comb" and (cat is None or cat["k"] == "abs"):
-        ren = {"x": "q", "y": "b", "z": "a", None: None}
+        ren = {"x": "q", "y": "b", "z": "a", "": "k", None: None}  # "" is a label like any other, None is "no label"
         out.append(("categories x->q y->b (arbitrary bijection)", map_spec(spec, fl=lambda l: ren.get(l, l)), recipe, 1.0))
     elif recipe["k"] == "comb" and len(cat.get("labels", [])) >= 3:
         # any bijection applied to the labels AND to the declared scale keeps every rank in the scale,
@@ -131,6 +131,8 @@ def shards(tier, seed):
     # short and long segments mixed (a short far unit followed by a long unit that is within reach again)
     LONG = [[0, 1], [2, 3], [2, 6], [0, 6], [5, 6], [1, 2]]
     U.append(dict(n=2, k=2, T=2, labels=["x", "y", "z"], every=3 if tier == "quick" else 1))
+    U.append(dict(n=2, k=2, T=2, labels=[None, ""]))
+    U.append(dict(n=3, k=1, T=2, labels=[None, "", "x"]))
     U.append(dict(n=2, k=2, T=6, labels=["x"], segs=LONG))
     U.append(dict(n=3, k=2, T=6, labels=["x"], segs=LONG[:4], sym=True, every=2 if tier == "quick" else 1))
     tasks = []
